@@ -462,12 +462,55 @@ def extents(R: Run, GeoBox, GeoboxTiles, Affine):
                sig=f"ext|{mw}|{'in' if 0 <= iy < T[0] and 0 <= ix < T[1] else 'edge'}")
 
 
+def footprint_params(R: Run, geom, GeoBox, GeoboxTiles, Affine):
+    """the arithmetic glue of `footprint(crs, buffer, npoints)` (Model/C12Gi.footprintParams): the buffer distance is
+    recovered from the public result (bounding box of the footprint in the raster's own CRS minus that of the extent),
+    the densification resolution from `_reproject_resolution` while that helper exists"""
+    rng = R.rng
+    noted = False
+    for _ in range(R.pick(60, 500)):
+        ny, nx = rng.randint(1, 40), rng.randint(1, 40)
+        ax, ay = rng.choice([1, 2, 0.5, 10, 0.25]), rng.choice([1, 2, 0.5, 10, 0.25])
+        W = Affine(ax * rng.choice([1, -1]), 0, rng.randint(-100, 100) / 4, 0, ay * rng.choice([1, -1]), rng.randint(-100, 100) / 4)
+        gb = GeoBox((ny, nx), W, "EPSG:3857")
+        # the exact stream divides by powers of two (span / 100 is rounded by the double division: oracle below)
+        buffer, npoints = rng.choice([0, 1, 2, 2, 0.5, 3]), rng.choice([128, 2, 16, 64])
+        spec = ("r", (ny, max(1, ny // 2)), (nx, max(1, nx // 2)))
+
+        def f():
+            nonlocal noted
+            fp = gb.footprint(gb.crs, buffer, npoints)
+            eb, fb = gb.extent.boundingbox, fp.boundingbox
+            grow = (Fraction(fb.span_x) - Fraction(eb.span_x)) / 2
+            dist = "N" if buffer == 0 else frac_s(grow)
+            rr = getattr(gb, "_reproject_resolution", None)
+            if rr is None:
+                if not noted:
+                    noted = True
+                    R.notes.append("GeoBox has no _reproject_resolution helper: densification resolution not compared")
+                return None
+            return f"{dist} {frac_s(rr(npoints))}"
+
+        out = guarded(f)
+        if out is None:
+            continue
+        rr = getattr(gb, "_reproject_resolution", None)
+        if rr is not None:
+            want = max(abs(W.a) * nx, abs(W.e) * ny) / 100
+            got = guarded(lambda: rr(100))
+            R.oracle(not isinstance(got, str) and abs(got - want) <= 1e-12 * want, "footprint-resolution-wrong",
+                     {"W": aff_s(W), "shape": [ny, nx]}, f"densification resolution {got}, longer side / 100 = {want}", sig="fpp-oracle")
+        R.corr(f"c12 fpp {tgb_tok('EPSG:3857', True, W, spec)} {frac_s(buffer)} {npoints}", lambda out=out: out,
+               sig=f"fpp|{'buffered' if buffer else 'plain'}|{'mirrored' if W.a < 0 or W.e > 0 else 'north-up'}")
+
+
 def gi_stream(R: Run, geom, GeoBox, GeoboxTiles, Affine):
     spec_validation(R)
     extents(R, GeoBox, GeoboxTiles, Affine)
     grid_intersect_public(R, geom, GeoBox, GeoboxTiles, Affine)
     tiles_public(R, geom, GeoBox, GeoboxTiles, Affine)
     shape_queries(R, geom, GeoBox, GeoboxTiles, Affine)
+    footprint_params(R, geom, GeoBox, GeoboxTiles, Affine)
     R.assumptions.append("Spec/ConvexDisjoint (separating-axis test) == shapely `disjoint` on convex quadrilaterals with "
                          "positive area: validated on every run (op cvx) and, implicitly, by every same-CRS gi / tq case")
 
